@@ -721,9 +721,11 @@ def convert_to_poly(t):
         base = convert_to_poly(t.arg1)
         power = convert_to_poly(t.arg)
         if base.is_constant() and power.is_constant():
-            return poly.constant(Fraction(base.get_constant()) ** Fraction(power.get_constant()))
-        else:
-            return poly.singleton(t)
+            b, p = Fraction(base.get_constant()), Fraction(power.get_constant())
+            # Evaluate only when the value is an exact rational number
+            if p.denominator == 1 and (b != 0 or p >= 0):
+                return poly.constant(b ** int(p))
+        return poly.singleton(t)
     else:
         return poly.singleton(t)
 
